@@ -327,3 +327,53 @@ func paramBehind(v ssa.Value) *ssa.Parameter {
 	}
 	return nil
 }
+
+// structFieldLeaves: the values the field `name` of struct value v can hold, following v through phis, copies through
+// local variables and loads of composite literals (a literal that does not set the field contributes nil = the zero
+// value).  ok is false when v cannot be followed.
+func structFieldLeaves(v ssa.Value, name string, depth int) (out []ssa.Value, ok bool) {
+	if depth > 6 {
+		return nil, false
+	}
+	switch x := v.(type) {
+	case *ssa.Phi:
+		for _, e := range x.Edges {
+			if e == ssa.Value(x) {
+				continue
+			}
+			o, ok := structFieldLeaves(e, name, depth+1)
+			if !ok {
+				return nil, false
+			}
+			out = append(out, o...)
+		}
+		return out, true
+	case *ssa.UnOp:
+		if x.Op != token.MUL {
+			return nil, false
+		}
+		a, isAlloc := x.X.(*ssa.Alloc)
+		if !isAlloc {
+			return nil, false
+		}
+		// whole-struct stores into the cell (a variable that receives copies), else a literal built in place
+		whole := false
+		for _, r := range *a.Referrers() {
+			if st, isStore := r.(*ssa.Store); isStore && st.Addr == ssa.Value(a) {
+				whole = true
+				o, ok := structFieldLeaves(st.Val, name, depth+1)
+				if !ok {
+					return nil, false
+				}
+				out = append(out, o...)
+			}
+		}
+		if whole {
+			return out, true
+		}
+		return []ssa.Value{litField(a, name)}, true
+	case *ssa.Const:
+		return []ssa.Value{nil}, true
+	}
+	return nil, false
+}
